@@ -1118,9 +1118,9 @@ def gen_spec(
         # well-formed after repair
         import copy as _copy
 
-        pre = dict(sched=schedv, bodies=_copy.deepcopy(bodies), rels=[], tops=[])
-        repair(pre)
-        pan = analyze(pre)
+        # (reaching sets of the unrepaired design are supersets of the final ones: disjoint here => disjoint later;
+        # that both sides are still reached after the repair is verified on the trial design below)
+        pan = analyze(dict(sched=schedv, bodies=bodies, rels=[], tops=[]))
         reach = {b["name"]: set(pan.reaching_transactions(b["name"])) for b in bodies}
         cand = [
             (j, pi)
